@@ -22,7 +22,18 @@ def cb_raise(*args, **kw):
     vrec('cb', 'raise', list(args), kw)
     raise ValueError('cb failed')
 
-CBS = {'cb0': cb0, 'cb1': cb1, 'cb_raise': cb_raise}
+def cb_sleep(*args, **kw):
+    vrec('cb', 'sleep', list(args), kw)
+    vcbphase(kw.get('tag'))
+    task.sleep(0.55)
+    vrec('cbend', 'sleep', kw.get('tag'))
+
+def cb_mod(*args, **kw):
+    vrec('cb', 'mod', list(args), kw)
+    task.remove_done_callback(task.current_task(), cb0)
+    task.add_done_callback(task.current_task(), cb1, 99, tag=kw.get('tag'))
+
+CBS = {'cb0': cb0, 'cb1': cb1, 'cb_raise': cb_raise, 'cb_sleep': cb_sleep, 'cb_mod': cb_mod}
 
 def run_steps(pid, steps):
     vreg(pid)
@@ -123,7 +134,7 @@ def gen(R):
                 steps.append(["wait", R.choice(children)])
             elif kind == "add_cb":
                 target = R.choice(children + [pid])
-                steps.append(["add_cb", target, R.weighted([(4, "cb0"), (4, "cb1"), (1, "cb_raise")]), R.int(0, 9)])
+                steps.append(["add_cb", target, R.weighted([(4, "cb0"), (4, "cb1"), (1, "cb_raise"), (2, "cb_sleep"), (1, "cb_mod")]), R.int(0, 9)])
             elif kind == "remove_cb" and steps:
                 target = R.choice(children + [pid])
                 steps.append(["remove_cb", target, R.choice(CBNAMES[:2])])
@@ -174,7 +185,8 @@ def gen(R):
             fault = {"pid": victim["pid"], "at": victim["start"] + R.choice([x + 0.5 for x in range(int(total))])}
         else:
             fault = {"pid": victim["pid"], "at": victim["start"] + R.choice([0.5, 1.5, 2.5, 3.5, 5.5])}
-    return {"legacy": R.bool(), "tasks": tasks, "fault": fault}
+    # a second cancellation that arrives while the ended task is suspended inside one of its done-callbacks
+    return {"legacy": R.bool(), "tasks": tasks, "fault": fault, "cancel_in_cb": R.bool(1, 2)}
 
 
 async def execute(case, with_fault=True):
@@ -194,6 +206,27 @@ async def execute(case, with_fault=True):
             return (threading.get_ident(), x * 2)
 
         Function.functions["vnative"] = vnative
+        cb_cancelled = []
+
+        def vcbphase(tag):
+            # called by the suspending callback from inside the ending task
+            tk = asyncio.current_task()
+            if not case.get("cancel_in_cb") or cb_cancelled:
+                return
+
+            async def later():
+                await asyncio.sleep(0.25)
+                if not tk.done():
+                    cb_cancelled.append(tag)
+                    it._vrec("cbcancel", tag)
+                    try:
+                        await Function.user_task_cancel(tk)
+                    except Exception:  # noqa: BLE001
+                        pass
+
+            asyncio.ensure_future(later())
+
+        Function.functions["vcbphase"] = vcbphase
         await it.spin()
         base = {"our_tasks": len([t for t in Function.our_tasks if not t.done()]), "task2cb": len(Function.task2cb), "task2context": len(Function.task2context)}
         t0 = it.vt()
@@ -221,9 +254,11 @@ async def execute(case, with_fault=True):
         left = {"our_tasks": len([t for t in Function.our_tasks if not t.done()]), "task2cb": len(Function.task2cb), "task2context": len(Function.task2context),
                 "unique": len(Function.unique_name2task) + len(Function.unique_task2name)}
         errs = [e[2][-400:] for e in it.errors()]
+        ha_errs = [e[2][-300:] for e in it.ha_errors()]
         states = {p: ("cancelled" if t.cancelled() else "done" if t.done() else "pending") for p, t in task_of.items()}
         await it.unload()
-    return {"recs": recs, "base": base, "left": left, "errors": errs, "fault_hit": fault_hit, "loop_exc": it.loop_exceptions, "states": states}
+    return {"recs": recs, "base": base, "left": left, "errors": errs, "fault_hit": fault_hit, "loop_exc": it.loop_exceptions, "states": states,
+            "ha_errors": ha_errs, "cb_cancelled": cb_cancelled}
 
 
 def per_pid(recs):
@@ -260,10 +295,17 @@ def analyse(case, r_fault, r_clean):
             targets = {s_[1] for st in progs.values() for s_ in st if s_[0] == "cancel"}
             if any(any(x[0] == "executor" for x in progs.get(c, [])) for c in targets):
                 racy |= set(progs)
+            # likewise a run with children that calls task.executor: what it sees of its children afterwards (ended or
+            # not yet) depends on how long the executor thread took in real time
+            if len(progs) > 1 and any(x[0] == "executor" for st in progs.values() for x in st):
+                racy |= set(progs)
         for pid in set(a) | set(b):
             if pid in fam or pid in racy:
                 continue
-            if a.get(pid) != b.get(pid):
+            la, lb = a.get(pid) or [], b.get(pid) or []
+            # same records in the same order at the same virtual instants (loop iterations cost 1 us each and their number
+            # depends on how long executor threads take in real time, so instants are compared to 5 ms)
+            if len(la) != len(lb) or any(x[1:] != y[1:] or abs(x[0] - y[0]) > 0.005 for x, y in zip(la, lb)):
                 problems.append("other-run-disturbed")
     for label, r in (("fault", r_fault), ("clean", r_clean)):
         # 2. done-callbacks: each registered-and-not-removed callback of a task runs exactly once after it ended
@@ -295,23 +337,28 @@ def analyse(case, r_fault, r_clean):
         cbs = [x[1] for x in r["recs"] if x[1][0] == "cb"]
         got = {}
         for c in cbs:
-            key = (c[3].get("tag"), "cb_raise" if c[1] == "raise" else f"cb{c[1]}")
+            key = (c[3].get("tag"), f"cb_{c[1]}" if isinstance(c[1], str) else f"cb{c[1]}")
             got.setdefault(key, []).append(c[2])
         for target, m in reg.items():
             if r["states"].get(target) == "pending":
                 continue
             names = list(m)
             # open finding C14-callback-raise-stops-others: a raising callback may stop the remaining ones
+            # a task cancelled again while one of its callbacks is suspended: whether the remaining callbacks still run
+            # is not specified; a callback that changes the callbacks of its own (already ended) task likewise
+            loose = target in r["cb_cancelled"] or "cb_mod" in names
             for name, arg in m.items():
                 g = got.get((target, name), [])
-                if len(g) > 1:
+                if len(g) > 1 and not (loose and name == "cb1"):
                     problems.append(f"{label}:callback-ran-twice")
+                elif loose:
+                    continue
                 elif len(g) == 0:
                     problems.append(f"{label}:callback-missing" + ("-with-raising-sibling" if "cb_raise" in names and name != "cb_raise" else ""))
                 elif g[0] != [arg]:
                     problems.append(f"{label}:callback-args")
         for (target, name), g in got.items():
-            if name not in reg.get(target, {}):
+            if name not in reg.get(target, {}) and not (name == "cb1" and "cb_mod" in reg.get(target, {})):
                 problems.append(f"{label}:removed-callback-ran")
         # 3. wait/result reflect the outcome
         for x in r["recs"]:
@@ -351,6 +398,8 @@ def analyse(case, r_fault, r_clean):
                     problems.append(f"{label}:executor-same-thread")
         if r["loop_exc"]:
             problems.append(f"{label}:loop-exception-handler-invoked")
+        if r["ha_errors"]:
+            problems.append(f"{label}:exception-reached-home-assistant")
         # 6. the only errors a graph may log are the ones its programs ask for: KeyError('boom') of a raise step and
         #    ValueError('cb failed') of the raising callback (the executor's ValueError is caught by the program)
         #    (task.cancel / add_done_callback aimed at a task that has already ended raise TypeError / KeyError naming
@@ -368,14 +417,14 @@ class C14(ModelCheck):
     rule = (
         "task graphs of 2-4 top-level runs (service calls and event triggers) whose programs sleep, create child "
         "tasks (task.create), wait for them (task.wait + done/cancelled/result), add and remove done-callbacks on "
-        "themselves and their children, cancel a child or themselves, get ended by a child's task.unique claim while owning two names, raise, return and call task.executor; one fault "
+        "themselves and their children (among them a callback that suspends and one that changes the callbacks of its own task; in half of the cases a second cancellation arrives while the ended task is suspended inside its callback), cancel a child or themselves, get ended by a child's task.unique claim while owning two names, raise, return and call task.executor; one fault "
         "(task.cancel of a chosen run at a chosen virtual instant, i.e. at one of its suspension points) is injected and "
         "the same graph is also run fault-free. Oracle: runs unrelated to the victim have identical timestamped logs "
         "with and without the fault; every registered-and-not-removed done-callback runs exactly once with its "
         "arguments after its task ended for any reason, removed ones never; task.wait returns only when the task is "
         "done and cancelled() reflects the outcome; our_tasks / task2cb / task2context / unique tables are back to "
         "their baseline at quiescence; task.executor returns or raises like the plain call and runs on another "
-        "thread; the loop's exception handler is never invoked and nothing but the exceptions the programs raise on purpose is logged. Non-trivial = the fault lands while a callback is "
+        "thread; the loop's exception handler is never invoked, Home Assistant's core never logs an exception that escaped from a run, and nothing but the exceptions the programs raise on purpose is logged. Non-trivial = the fault lands while a callback is "
         "registered on the victim or one of its relatives; distinct by case content."
     )
     assumptions = ["the interleaving of the executor thread with the loop is left to the OS", "independence is judged in virtual time (CPU cost of a run is invisible by construction)"]
